@@ -33,7 +33,7 @@ def cases(tier, seed, shard, nshards):
         if i % 5 == 0:
             yield _sim.preemption_case(rng, algo="priority-pool", oom=True)
     # scale cases: large in one dimension (one per shard for the first shards; all of them, twice, in the thorough tier)
-    _kinds = ["many-small:priority-pool", "many-small:priority-pool"]
+    _kinds = ["many-small-x2:priority-pool", "many-small:priority-pool"]
     for _j, _kd in enumerate(_kinds * (1 if tier == "quick" else 2)):
         if tier == "thorough" or _j == shard:
             _k, _, _a = _kd.partition(":")
